@@ -1074,6 +1074,26 @@ func (e *absEnv) stdCall(fr *absFrame, name string, args []aval, depth int) (ava
 		return nil, false
 	}
 	switch base {
+	case "slices.Clone":
+		es, ok := elems(args[0])
+		if !ok {
+			return nil, false
+		}
+		if es == nil {
+			return anil{}, true
+		}
+		var et types.Type = types.Typ[types.Int]
+		switch t := args[0].(type) {
+		case avals:
+			if len(t.cells) > 0 {
+				et = t.cells[0].typ
+			}
+		case aslice:
+			sl := make([]*aobj, len(t.elems))
+			copy(sl, t.elems)
+			return aslice{sl}, true
+		}
+		return newVals(es, et), true
 	case "slices.IndexFunc", "slices.ContainsFunc":
 		es, ok := elems(args[0])
 		if !ok {
